@@ -449,9 +449,13 @@ func (rs *s3ClientStorage) GetObject(ctx context.Context, bucketName storage.Buc
 	}
 
 	// First, get object metadata
-	object, err := rs.HeadObject(ctx, bucketName, key, nil)
+	var headOpts *storage.HeadObjectOptions
+	if opts != nil && opts.VersionID != nil {
+		headOpts = &storage.HeadObjectOptions{VersionID: opts.VersionID}
+	}
+	object, err := rs.HeadObject(ctx, bucketName, key, headOpts)
 	if err != nil {
-		return nil, nil, err
+		return nil, nil, translateS3Error(err)
 	}
 
 	// Get each range
